@@ -445,6 +445,8 @@ def k_gen_apply(chk, ctx, rng, n):
         ids = pick(d, universe)
         others = [x for x in universe if x not in ids]
         kind = ['marginalize', 'split', 'branch', 'admix', 'merge', 'pulses'][it % 6]
+        if kind in ('split', 'branch', 'admix') and d == 5 and rng.random() < 0.75:       # five populations: these raise; keep a quarter of them
+            d = int(rng.integers(1, 5)); ids = ids[:d]; others = [x for x in universe if x not in ids]
         bad = rng.random() < 0.2
         if kind == 'marginalize': ev = ('marginalize', others[0] if bad else ids[int(rng.integers(d))])
         elif kind == 'split':
